@@ -190,7 +190,8 @@ OpenClass ==
             tabs @@ (path :> [v |-> NoVars, f |-> {}]))
 
 \* parameter lists: distinct names, introduced in canonical order
-ParamLists == {ps \in UNION {[1..k -> Vars] : k \in 0..P.maxpar} :
+SeqsUpTo(S, k) == {<<>>} \cup (IF k >= 1 THEN {<<a>> : a \in S} ELSE {}) \cup (IF k >= 2 THEN {<<a, b>> : a, b \in S} ELSE {})
+ParamLists == {ps \in SeqsUpTo(Vars, P.maxpar) :
                  /\ \A i, j \in DOMAIN ps : i # j => ps[i] # ps[j]
                  /\ \A j \in DOMAIN ps : Fresh(ps[j], {ps[i] : i \in 1..(j - 1)})}
 ParamTbl(ps, first) == [n \in Vars |-> IF \E j \in DOMAIN ps : ps[j] = n THEN first - 1 + (CHOOSE j \in DOMAIN ps : ps[j] = n) ELSE 0]
@@ -297,6 +298,9 @@ Pending(m, s, this) == [i |-> Here, s |-> s, n |-> m, this |-> this,
                         outer |-> IF this THEN 0 ELSE LET r == Lookup(m) IN IF r.kind = "class" THEN r.outer ELSE 0]
 AddPending(st, p) == [st EXCEPT ![ClassFrame].pend = @ \cup {p}]
 
+\* a use that is left to the end of the class is only written when it can still become bound
+PendOK(n, r) == r.outer # 0 \/ tabs[stack[ClassFrame].path].v[n] # 0 \/ (P.late /\ n \in Declared)
+
 DeclareScope(n, st) ==                            \* in a namespace, the file or a class
   /\ Size < P.K /\ Top.k \in {"file", "ns", "class"} /\ Fresh(n, {})
   /\ tabs[Top.path].v[n] = 0
@@ -319,7 +323,7 @@ DeclareInit(n, m) ==
   /\ \/ /\ InBody /\ Top.tbl[n] = 0
         /\ LET st2 == [stack EXCEPT ![Len(stack)].tbl[n] = NextId]
                r == IF m = n THEN [kind |-> "found", id |-> NextId] ELSE Lookup(m) IN
-             /\ r.kind \in {"found", "class"}
+             /\ r.kind = "found" \/ (r.kind = "class" /\ PendOK(m, r))
              /\ prog' = Append(prog, Item("decl", n, NextId, "local", <<>>, <<Sub(m, IF r.kind = "found" THEN r.id ELSE 0, "init")>>))
              /\ stack' = IF r.kind = "found" THEN st2 ELSE AddPending(st2, Pending(m, 1, FALSE))
              /\ decl' = Append(decl, NewVar(n, "auto"))
@@ -350,8 +354,7 @@ UsePlain(n) ==
        \/ /\ r.kind = "found"
           /\ prog' = Append(prog, Item("use", n, r.id, "plain", <<>>, <<>>))
           /\ UNCHANGED stack
-       \/ /\ r.kind = "class"
-          /\ (r.outer # 0 \/ tabs[stack[ClassFrame].path].v[n] # 0 \/ (P.late /\ n \in Declared))
+       \/ /\ r.kind = "class" /\ PendOK(n, r)
           /\ prog' = Append(prog, Item("use", n, 0, "plain", <<>>, <<>>))
           /\ stack' = AddPending(stack, Pending(n, 0, FALSE))
   /\ UNCHANGED <<tabs, decl>>
@@ -393,7 +396,7 @@ Call(args) ==
 
 Sigs == {P.sigs[i] : i \in DOMAIN P.sigs}
 ArgT == {P.argt[i] : i \in DOMAIN P.argt}
-ArgLists == UNION {[1..k -> ArgT] : k \in 0..2}
+ArgLists == SeqsUpTo(ArgT, 2)
 
 (***************************************************************************)
 (* The behaviours.                                                         *)
@@ -460,7 +463,7 @@ DeclsDistinct ==
 UsesVisible ==
   \A t \in Toks(prog) : t.role \in {"use", "call"} /\ t.id # 0 =>
       LET d == CHOOSE d \in Toks(prog) : d.role \in {"decl", "fdecl"} /\ d.id = t.id IN
-      \/ d.i < t.i \/ (d.i = t.i /\ d.s < t.s) \/ (d.i = t.i /\ d.s = t.s + 1 /\ t.s = 0 /\ FALSE)
+      \/ d.i < t.i \/ (d.i = t.i /\ d.s < t.s)
       \/ decl[t.id].st \in {"field", "smember"}
 \* unbound uses exist only while their class is open
 PendingOnlyInClass ==
